@@ -43,40 +43,47 @@ func CheckImmutable(
 	}
 
 	for file := range filesToCheck {
+		for _, decl := range file.Decls {
+			// A top-level declaration starts outside of any function: package-level
+			// initialisers have neither an enclosing function nor a receiver
+			noFunction := ""
+			ctx.currentFunction = &noFunction
+			ctx.currentReceiver = nil
 
-		// First pass: check simple assignments and inc/dec operations
-		// We skip compound assignments (+=, -=, etc.) here to avoid duplicates
-		ast.Inspect(file, func(n ast.Node) bool {
-			switch node := n.(type) {
-			case *ast.FuncDecl:
-				ctx.currentFunction = &node.Name.Name
+			// First pass: check simple assignments and inc/dec operations
+			// We skip compound assignments (+=, -=, etc.) here to avoid duplicates
+			ast.Inspect(decl, func(n ast.Node) bool {
+				switch node := n.(type) {
+				case *ast.FuncDecl:
+					ctx.currentFunction = &node.Name.Name
 
-				// Track receiver information for methods
-				ctx.currentReceiver = extractReceiverInfo(ctx.pass, node)
-				return true
+					// Track receiver information for methods
+					ctx.currentReceiver = extractReceiverInfo(ctx.pass, node)
+					return true
 
-			case *ast.AssignStmt:
-				// Only process compound assignments here
-				// Check: x.field += value, x.field *= value, etc.
-				if node.Tok != token.ASSIGN {
-					v := checkCompoundAssignment(ctx, node)
+				case *ast.AssignStmt:
+					// Only process compound assignments here
+					// Check: x.field += value, x.field *= value, etc.
+					if node.Tok != token.ASSIGN {
+						v := checkCompoundAssignment(ctx, node)
+						violations = append(violations, v...)
+						return true
+					}
+
+					// Check: x.field = value, x.items[0] = value
+					v := checkAssignment(ctx, node)
+					violations = append(violations, v...)
+					return true
+
+				case *ast.IncDecStmt:
+					// Check: x.field++, x.field--
+					v := checkIncDec(ctx, node)
 					violations = append(violations, v...)
 					return true
 				}
-
-				// Check: x.field = value, x.items[0] = value
-				v := checkAssignment(ctx, node)
-				violations = append(violations, v...)
 				return true
-
-			case *ast.IncDecStmt:
-				// Check: x.field++, x.field--
-				v := checkIncDec(ctx, node)
-				violations = append(violations, v...)
-				return true
-			}
-			return true
-		})
+			})
+		}
 	}
 
 	return violations
